@@ -31,9 +31,45 @@ pub struct Recovery {
     pub gc_stats: crate::blob_tree::FragmentationMap,
 }
 
+/// Reads the checksum of the current version file, as stored in the `current` file.
+fn get_current_version_checksum(folder: &std::path::Path) -> crate::Result<Option<Checksum>> {
+    use std::io::{Read, Seek};
+
+    let mut file = std::fs::File::open(folder.join(CURRENT_VERSION_FILE))?;
+    file.seek(std::io::SeekFrom::Start(std::mem::size_of::<VersionId>() as u64))?;
+
+    let mut buf = vec![];
+    file.read_to_end(&mut buf)?;
+
+    let mut reader = &buf[..];
+
+    // NOTE: Pointer files that do not carry a checksum cannot be verified
+    let Ok(checksum) = reader.read_u128::<LittleEndian>() else {
+        return Ok(None);
+    };
+
+    match reader.read_u8() {
+        Ok(0) => Ok(Some(Checksum::from_raw(checksum))),
+        Ok(checksum_type) => Err(crate::Error::InvalidTag(("ChecksumType", checksum_type))),
+        Err(_) => Ok(None),
+    }
+}
+
 pub fn recover(folder: &Path) -> crate::Result<Recovery> {
     let curr_version_id = get_current_version(folder)?;
     let version_file_path = folder.join(format!("v{curr_version_id}"));
+
+    // IMPORTANT: The version file's sections (table IDs, global seqnos, blob file IDs, GC stats)
+    // are not checksummed individually, so check the file against the checksum that was stored
+    // alongside the version pointer
+    if let Some(expected) = get_current_version_checksum(folder)? {
+        let bytes = std::fs::read(&version_file_path)?;
+        let got = Checksum::from_raw(xxhash_rust::xxh3::xxh3_128(&bytes));
+
+        got.check(expected).inspect_err(|_| {
+            log::error!("version #{curr_version_id} does not match its checksum - the file is corrupted");
+        })?;
+    }
 
     // TODO: maybe validate current version using the checksum in "current"
 
